@@ -89,6 +89,8 @@ def run_case(case, opts):
             members.append(["nop", []] if c is None else [c[0], c[1]])
         return members
 
+    converter = PlanConverter(dom)
+
     def snap():
         s = {k: pylib.project_state(v) for k, v in states.items()}
         for k, tr in runs.items():
@@ -187,13 +189,17 @@ def run_case(case, opts):
             cc = rng.random() < 0.5
             text = "".join(f"{i}: (" + " ".join([n.upper() if rng.random() < 0.3 else n] + list(a)) + ")\n" for i, (n, a) in enumerate(plan))
             p = pylib.write_tmp(text, ".solution")
+            # one converter object serves the whole history; the caller lists the agents in an order of its own
+            order = agents[:]
+            if rng.random() < 0.5:
+                rng.shuffle(order)
             try:
-                joint = PlanConverter(dom).convert_plan(prob, p, agents, should_validate_concurrency_constraint=cc)
+                joint = converter.convert_plan(prob, p, order, should_validate_concurrency_constraint=cc)
                 out = {"joint": [[[a.name, list(a.parameters)] for a in j.actions] for j in joint]}
             except Exception as e:  # noqa: BLE001
                 out = {"exc": pylib.exc_name(e), "joint": []}
             finally:
                 os.unlink(p)
-            ev.append({"c": "ConvertPlan", "d": "d", "p": "p", "plan": plan, "agents": agents, "cc": cc, "out": out})
+            ev.append({"c": "ConvertPlan", "d": "d", "p": "p", "plan": plan, "agents": order, "cc": cc, "out": out})
         snap()
     return hist
